@@ -80,7 +80,7 @@ def check(prog, res, tier):
 
                 def chk1(p, mode, bl=bl):
                     if p.outcome != 'return':
-                        return [definite(f'finalisation raises {p.value!r}')]
+                        return [definite(f'finalisation raises {p.value!r}')] if p.outcome == 'raise' else []
                     eff = file_effects(p, p.interp.user['file'], p.interp.user['mark'])
                     kinds = [e.kind for e in eff]
                     fails = []
@@ -116,7 +116,7 @@ def check(prog, res, tier):
 
                 def chk2(p, mode):
                     if p.outcome != 'return':
-                        return [definite(f'second finalisation raises {p.value!r}')]
+                        return [definite(f'second finalisation raises {p.value!r}')] if p.outcome == 'raise' else []
                     eff = file_effects(p, p.interp.user['file'], p.interp.user['mark'])
                     if eff:
                         e = eff[0]
